@@ -1,6 +1,10 @@
 (* Executable checks for C15: the access table regenerated from /repo's source
    by tools/locksets (one case per tracked field) is evaluated by the lockset
-   checker of Model/Access.v; the race-detector runs contribute one case per
+   checker of Model/Access.v (row classes JPlain / JAtomic / JInit = object-level
+   initialisation / JConfined / JPub tag = field-level publication / JAfter tag =
+   a site listed as ordered after that publication; a JPub write next to a site
+   that no justification line lists is rejected: reason 2, the case carries the
+   field, its rows and the unsafe pairs); the race-detector runs contribute one case per
    workload run (number of reports with a goat frame) and one per report. *)
 From Coq Require Import List ZArith Bool Lia.
 Import ListNotations.
